@@ -8,8 +8,10 @@ tmp=$(mktemp -d)
 trap 'rm -rf "$tmp"' EXIT
 cp -r spec "$tmp/spec"
 for f in "$tmp"/spec/*.tla; do
+  case "$f" in *Proof.tla) continue ;; esac   # proof modules import TLAPS.tla, which belongs to tlapm, not to SANY's library
   (cd "$tmp/spec" && timeout 120 java -cp /opt/veriftools/tla/tla2tools.jar:/opt/veriftools/tla/CommunityModules-deps.jar tla2sany.SANY "$(basename "$f")" >"$tmp/sany.out" 2>&1) || { cat "$tmp/sany.out"; echo "SANY failed on $f"; exit 1; }
 done
+command -v tlapm >/dev/null || { echo "tlapm not found"; exit 1; }
 cp -r harness "$tmp/harness"
 cp /repo/go.sum "$tmp/harness/go.sum"
 (cd "$tmp/harness" && go build -tags verif -o "$tmp/h" . )
